@@ -122,6 +122,11 @@ func NewAtomVisitor() Visitor {
 	return &AtomVisitor{}
 }
 
+// A shortest path pattern used as a value (return shortestPath(...)) cannot be represented by the expression model.
+func (s *AtomVisitor) EnterOC_ShortestPathPattern(ctx *parser.OC_ShortestPathPatternContext) {
+	s.newUnsupportedRuleError(ctx)
+}
+
 func (s *AtomVisitor) EnterOC_Parameter(ctx *parser.OC_ParameterContext) {
 	s.ctx.Enter(&SymbolicNameOrReservedWordVisitor{})
 }
